@@ -398,9 +398,9 @@ def main():
                     "under WEEKLY/DAILY are ignored by code and specification: C01_normalize_strip, "
                     "C01_spec_iter_strip); WEEKLY: passes whose weeks end within 9999-12-31 and (with BYSETPOS) "
                     "first week not before 0001-01-01",
-                "C01_rrule_iter_correct_easter_headline_partial": "easter_guard: FREQ YEARLY..DAILY WITH BYEASTER, BYDAY "
-                    "without numeric prefix, BYWEEKNO in range, start year and all n passes inside C19's range "
-                    "1583..4098 (WEEKLY: 1584..4097, the cross-year week needs next year's Easter); BYSETPOS free",
+                "C01_rrule_iter_correct_full_headline_partial": "full_guard = the headline guard without BYEASTER, OR with "
+                    "BYEASTER and start year + all n passes inside C19's range 1583..4098 (WEEKLY: 1584..4097, the "
+                    "cross-year week needs next year's Easter); nth weekdays and BYSETPOS free in both cases",
                 "C01_rrule_strictly_increasing_headline_partial": "coarse_guard_all",
                 "C01_rrule_nodup_headline_partial": "coarse_guard_all",
                 "C01_rrule_total_headline_partial": "coarse_guard_all: constructor accepts, iteration raises nothing",
@@ -442,16 +442,15 @@ def main():
                 "C01_subdaily_spec_prefix_of_iterate": "sfam: the converse (progress)"},
             "not_proved_correspondence_only": [
                 "rrule_iter_correct (model = spec for every rule in spec_wf): proved for the families above; NOT "
-                "proved: BYEASTER outside easter_guard (years outside 1583..4098, nth weekdays next to BYEASTER, "
-                "sub-daily FREQ; dateutil extension, not RFC), "
+                "proved: BYEASTER outside C19's year range 1583..4098 or under sub-daily FREQ (dateutil extension, "
+                "not RFC), "
                 "the cut-off last week of year 9999 (WEEKLY), BYWEEKNO members beyond +-53 (not RFC)",
                 "strictly increasing / no duplicates outside the two headline guards (checked on every yielded "
                 "sequence)",
                 "no IndexError / only ValueError outside coarse_guard (inside: C01_rrule_no_exception_partial; "
                 "otherwise proved per mask builder and for rebuild, observed exception classes are checked)"]},
         "refuted_theorems": [t for t in props["theorems"] if "refuted" in t],
-        "differential_only": ["BYEASTER outside C19's year range 1583..4098, with numeric BYDAY prefixes, or with "
-                              "sub-daily FREQ",
+        "differential_only": ["BYEASTER outside C19's year range 1583..4098 or with sub-daily FREQ",
                               "WEEKLY + BYSETPOS whose first week begins before 0001-01-01 (positions would count "
                               "unrepresentable days): model vs implementation only",
                               "rules outside spec_wf (empty BY-lists, BYMONTHDAY 0, out-of-range time parts): "
@@ -459,6 +458,10 @@ def main():
         "known_findings_hit": verdict.known_hits,
         "translator": translators or "all generators ran (see assumptions: gen files)",
     }
+    # guards are listed only for theorems that props/C01.v still restates (superseded ones were dropped there)
+    if props["theorems"]:
+        cov["theorem_status"]["guards"] = {k: v for k, v in cov["theorem_status"]["guards"].items()
+                                           if k in props["theorems"]}
     C.write_evidence(CID, tier, t0, props, cov,
                      ["CPython datetime/calendar modelled by coq/base/Cal.v (date validity, ordinals, weekday)",
                       "gen/RrTables.v is a value dump of the live module tables (harness/gen_rr_tables.py)",
